@@ -185,8 +185,8 @@ public:
         for (int i = 0; i < number_of_rows; i++) {
             for (int j = 0; j < number_of_columns; j++) {
                 double distance_to_center = std::sqrt(
-                    pow((abs(mid_row - i) * east_west_resolution), 2)
-                    + pow((abs(mid_col - j) * north_south_resolution), 2));
+                    pow((abs(mid_row - i) * north_south_resolution), 2)
+                    + pow((abs(mid_col - j) * east_west_resolution), 2));
                 // determine probability based on distance
                 if (kernel_type_ == DispersalKernelType::Cauchy) {
                     probability(i, j) = abs(cauchy.pdf(distance_to_center));
